@@ -278,7 +278,19 @@ def run_impl(case):
                 try:
                     if mode in ("decor", "noself"):
                         await mem.clear(); del seen[:]
-                        await dec(*(([inst] if method else []) + list(args)), **kwargs)
+                        names = [p["name"] for p in params if p["kind"] in ("PK", "KO") and p["name"].isidentifier()]
+                        if mode == "decor" and names and n_form % 4 == 3:
+                            # the call is made from inside an @invalidate function whose parameters bear the same names with other
+                            # values: the key of the inner call must depend on the inner call's arguments only
+                            ns = {}
+                            exec("async def outer(" + ", ".join(names) + "):\n    return await INNER()\n", ns)
+                            async def INNER():
+                                return await dec(*list(args), **kwargs)
+                            ns["INNER"] = INNER
+                            outer = cache.invalidate("zz-no-such-key:{" + names[0] + "}")(ns["outer"])
+                            await outer(*["poison" for _ in names])
+                        else:
+                            await dec(*(([inst] if method else []) + list(args)), **kwargs)
                         k = seen[0] if seen else None
                     else:
                         k = get_cache_key(fn, tstr if case["given"] else None, tuple(args), dict(kwargs))
